@@ -695,4 +695,306 @@ theorem stepRow_homogeneous (p : Path V K)
   · simp only [Path.stepRow, hp]; exact euler_homogeneous _ hf c x h
   · simp only [Path.stepRow, hp]; exact rk4_homogeneous _ hf c x h
 end stepunits
+/-! ## round 3: what *is* proved about the fixed points and the stopping test of the relaxation
+
+`relaxation_converges_to_saddle` stays partial (iterated floats + spline).  Proved: the climbing rate has the
+length of the gradient; critical points are exactly the images an Euler move leaves in place (ordinary and
+climbing), and both integrators leave them in place; a whole step (integration + any re-spacing that keeps the
+pinned rows) that returns its string has its ends and climbing images at critical points; the stopping test of
+`relax` bounds the gradient at every image kept by the re-spacing by the tolerance; a phase that stops early
+stopped on that test and not later than it could. -/
+
+section climb2
+variable {K V : Type} [Field K] [CharZero K] [AddCommGroup V] [Module K V]
+variable (dot : V → V → K)
+
+/-- the climbing rate is the mirror image of `-grad E` in the plane normal to the unit tangent: it has the
+    length of the gradient, so the convergence measure of `relax` (largest displacement / time step) bounds the
+    gradient at the climbing image exactly as it does at an ordinary image. -/
+theorem climbrate_norm_sq
+    (hadd : ∀ a b c, dot (a + b) c = dot a c + dot b c) (hadd' : ∀ a b c, dot a (b + c) = dot a b + dot a c)
+    (hsmul : ∀ (k : K) a c, dot (k • a) c = k * dot a c) (hsmul' : ∀ (k : K) a c, dot a (k • c) = k * dot a c)
+    (hneg : ∀ a c, dot (-a) c = - dot a c) (hneg' : ∀ a c, dot a (-c) = - dot a c)
+    (hsymm : ∀ a b, dot a b = dot b a)
+    (gradE : V → V) (x τ : V) (hτ : dot τ τ = 1) :
+    dot (climbrate gradE dot x τ) (climbrate gradE dot x τ) = dot (gradE x) (gradE x) := by
+  simp only [climbrate, hadd, hadd', hsmul, hsmul', hneg, hneg', hτ, Nat.cast_ofNat, hsymm τ (gradE x)]
+  ring
+
+/-- a critical point is left in place by the climbing move of either integrator. -/
+theorem climbRow_fixed_of_critical (p : Path V K)
+    (hp : p.integratorfxn = (fun r x h => euler r x h) ∨ p.integratorfxn = (fun r x h => rungekutta r x h))
+    (hdot0 : ∀ c, dot 0 c = 0) (h : K) (x τ : V) (hx : p.gradPoint x = 0) : p.climbRow dot h x τ = x := by
+  rcases hp with hp | hp
+  · simp only [Path.climbRow, hp, euler, climbrate, hx, hdot0, neg_zero, zero_smul, smul_zero, add_zero]
+  · simp only [Path.climbRow, hp, rungekutta, climbrate, hx, hdot0, neg_zero, zero_smul, smul_zero, add_zero]
+
+/-- Euler: a climbing image stays where it is exactly when the gradient vanishes there. -/
+theorem climbRow_euler_fixed_iff (p : Path V K) (hp : p.integratorfxn = fun r x h => euler r x h)
+    (hadd : ∀ a b c, dot (a + b) c = dot a c + dot b c) (hsmul : ∀ (k : K) a c, dot (k • a) c = k * dot a c)
+    (hneg : ∀ a c, dot (-a) c = - dot a c) (hdot0 : ∀ c, dot 0 c = 0)
+    (h : K) (hh : h ≠ 0) (x τ : V) (hτ : dot τ τ = 1) : p.climbRow dot h x τ = x ↔ p.gradPoint x = 0 :=
+  ⟨climbRow_euler_fixed_is_critical p hp dot hadd hsmul hneg hdot0 h hh x τ hτ,
+   climbRow_fixed_of_critical dot p (Or.inl hp) hdot0 h x τ⟩
+
+end climb2
+
+section aux
+variable {K V : Type} [Field K] [CharZero K] [AddCommGroup V] [Module K V]
+theorem stepRow_euler_fixed_iff' (p : Path V K) (hp : p.integratorfxn = fun r x h => euler r x h) (h : K)
+    (x : V) : p.gradPoint x = 0 → p.stepRow h x = x := by
+  intro hx
+  simp only [Path.stepRow, hp, euler, rate, hx, neg_zero, smul_zero, add_zero]
+end aux
+
+section lengths
+variable {K V : Type} [Field K] [AddCommGroup V] [Module K V]
+variable (dot : V → V → K) (sqrt : K → K)
+
+theorem tangentGo_length (prev : V) (l : List V) : (Path.tangentGo prev l).length = l.length + 1 := by
+  induction l generalizing prev with
+  | nil => rfl
+  | cons u t ih => simp only [Path.tangentGo, List.length_cons, ih]
+
+theorem rawTangent_length (l : List V) (hl : l ≠ []) : (Path.rawTangent l).length = l.length + 1 := by
+  cases l with
+  | nil => exact absurd rfl hl
+  | cons u t => simp only [Path.rawTangent, List.length_cons, tangentGo_length]
+
+/-- one unit tangent per image (two images at least). -/
+theorem unitTangentOf_length (c : List V) (hc : 2 ≤ c.length) : (Path.unitTangentOf dot sqrt c).length = c.length := by
+  have hd : (Path.diffs c).length = c.length - 1 := diffs_length c
+  have hne : (Path.diffs c).map (Path.unitOf dot sqrt) ≠ [] := by
+    intro h0
+    have := congrArg List.length h0
+    simp only [List.length_map, List.length_nil] at this
+    omega
+  simp only [Path.unitTangentOf, List.length_map, rawTangent_length _ hne, hd]
+  omega
+
+/-- one integrated row per image, with and without climbing images. -/
+theorem icoord_length (p : Path V K) (h : K) (climb : List Nat) (hc : 2 ≤ p.coord.length) :
+    (p.icoord dot sqrt h climb).length = p.coord.length := by
+  simp only [Path.icoord, List.length_map, List.length_zip, List.length_range, Path.unitTangent,
+    unitTangentOf_length dot sqrt p.coord hc, Nat.min_self]
+
+/-- row `i` of the integrated coordinates: the climbing move with the tangent of the *initial* string if `i` is a
+    climbing image, the ordinary move otherwise. -/
+theorem icoord_getElem? (p : Path V K) (h : K) (climb : List Nat) (hc : 2 ≤ p.coord.length) (i : Nat) (hi : i < p.coord.length) :
+    ∃ τ, (p.unitTangent dot sqrt)[i]? = some τ ∧
+      (p.icoord dot sqrt h climb)[i]? =
+        some (if climb.contains i then p.climbRow dot h p.coord[i] τ else p.stepRow h p.coord[i]) := by
+  have hlen := unitTangentOf_length dot sqrt p.coord hc
+  have hi' : i < (p.unitTangent dot sqrt).length := by simpa only [Path.unitTangent, hlen] using hi
+  refine ⟨(p.unitTangent dot sqrt)[i], List.getElem?_eq_getElem hi', ?_⟩
+  have hr : (List.range p.coord.length)[i]? = some i := by simp [hi]
+  have hcx : p.coord[i]? = some p.coord[i] := List.getElem?_eq_getElem hi
+  have ht : (p.unitTangent dot sqrt)[i]? = some (p.unitTangent dot sqrt)[i] := List.getElem?_eq_getElem hi'
+  have hz : ((List.range p.coord.length).zip (p.coord.zip (p.unitTangent dot sqrt)))[i]?
+      = some (i, p.coord[i], (p.unitTangent dot sqrt)[i]) := by
+    rw [List.getElem?_zip_eq_some]
+    refine ⟨hr, ?_⟩
+    rw [List.getElem?_zip_eq_some]
+    exact ⟨hcx, ht⟩
+  simp only [Path.icoord, List.getElem?_map, hz, Option.map]
+
+end lengths
+
+
+
+section wholestep
+variable {K V : Type} [Field K] [CharZero K] [AddCommGroup V] [Module K V]
+variable (dot : V → V → K) (sqrt : K → K)
+
+/-- **fixed points of a whole step** (Euler): if a step with climbing images `climb` returns the string it was
+    given, then the first image, the last image and every climbing image sit at critical points of the energy —
+    provided the re-spacing keeps these rows (they are knots of the spline whose arc coordinate is kept) and the
+    tangents are unit vectors (`unitTangent_unit`). -/
+theorem stringStep_fixed_pinned_critical (p : Path V K) (hp : p.integratorfxn = fun r x h => euler r x h)
+    (hadd : ∀ a b c, dot (a + b) c = dot a c + dot b c) (hsmul : ∀ (k : K) a c, dot (k • a) c = k * dot a c)
+    (hneg : ∀ a c, dot (-a) c = - dot a c) (hdot0 : ∀ c, dot 0 c = 0)
+    (respace : List Nat → List V → List V) (h : K) (hh : h ≠ 0) (climb : List Nat)
+    (hc : 2 ≤ p.coord.length)
+    (hkeep : ∀ (rows : List V) (i : Nat), (i = 0 ∨ i + 1 = rows.length ∨ i ∈ climb) →
+      (respace climb rows)[i]? = rows[i]?)
+    (hunit : ∀ τ ∈ p.unitTangent dot sqrt, dot τ τ = 1)
+    (hfix : (p.stringStep dot sqrt respace h climb).coord = p.coord)
+    (i : Nat) (hi : i < p.coord.length) (hpin : i = 0 ∨ i + 1 = p.coord.length ∨ i ∈ climb) :
+    p.gradPoint p.coord[i] = 0 := by
+  have hlen := icoord_length dot sqrt p h climb hc
+  obtain ⟨τ, hτ, hrow⟩ := icoord_getElem? dot sqrt p h climb hc i hi
+  have h1 : (respace climb (p.icoord dot sqrt h climb))[i]? = (p.icoord dot sqrt h climb)[i]? :=
+    hkeep _ i (by rw [hlen]; exact hpin)
+  have h2 : (respace climb (p.icoord dot sqrt h climb))[i]? = some p.coord[i] := by
+    have : (p.stringStep dot sqrt respace h climb).coord[i]? = p.coord[i]? := by rw [hfix]
+    simpa only [Path.stringStep, Path.withCoord, List.getElem?_eq_getElem hi] using this
+  rw [h1, hrow] at h2
+  have h3 := Option.some.inj h2
+  by_cases hcl : climb.contains i = true
+  · rw [if_pos hcl] at h3
+    exact climbRow_euler_fixed_is_critical p hp dot hadd hsmul hneg hdot0 h hh _ τ
+      (hunit τ (List.mem_of_getElem? hτ)) h3
+  · rw [if_neg hcl] at h3
+    exact (stepRow_euler_fixed_iff p hp h hh _).mp h3
+
+/-- conversely (both integrators): the pinned images of a string that sit at critical points are not moved by a step. -/
+theorem stringStep_critical_pinned_fixed (p : Path V K)
+    (hp : p.integratorfxn = (fun r x h => euler r x h) ∨ p.integratorfxn = (fun r x h => rungekutta r x h))
+    (hdot0 : ∀ c, dot 0 c = 0)
+    (respace : List Nat → List V → List V) (h : K) (climb : List Nat) (hc : 2 ≤ p.coord.length)
+    (hkeep : ∀ (rows : List V) (i : Nat), (i = 0 ∨ i + 1 = rows.length ∨ i ∈ climb) →
+      (respace climb rows)[i]? = rows[i]?)
+    (i : Nat) (hi : i < p.coord.length) (hpin : i = 0 ∨ i + 1 = p.coord.length ∨ i ∈ climb)
+    (hcrit : p.gradPoint p.coord[i] = 0) :
+    (p.stringStep dot sqrt respace h climb).coord[i]? = some p.coord[i] := by
+  have hlen := icoord_length dot sqrt p h climb hc
+  obtain ⟨τ, _, hrow⟩ := icoord_getElem? dot sqrt p h climb hc i hi
+  have h1 : (respace climb (p.icoord dot sqrt h climb))[i]? = (p.icoord dot sqrt h climb)[i]? :=
+    hkeep _ i (by rw [hlen]; exact hpin)
+  simp only [Path.stringStep, Path.withCoord, h1, hrow]
+  by_cases hcl : climb.contains i = true
+  · rw [if_pos hcl, climbRow_fixed_of_critical dot p hp hdot0 h _ τ hcrit]
+  · rw [if_neg hcl]
+    rcases hp with hp | hp
+    · rw [stepRow_euler_fixed_iff' p hp h _ hcrit]
+    · rw [stepRow_rk_fixed_of_critical p hp h _ hcrit]
+
+end wholestep
+
+
+section converged
+variable {K V : Type} [Field K] [LinearOrder K] [IsStrictOrderedRing K] [AddCommGroup V] [Module K V]
+variable (dot : V → V → K) (sqrt : K → K)
+
+theorem foldl_max_ge_init (l : List K) (m : K) : m ≤ l.foldl (fun m x => if m < x then x else m) m := by
+  induction l generalizing m with
+  | nil => exact le_refl m
+  | cons x t ih =>
+    simp only [List.foldl_cons]
+    split
+    · rename_i hlt; exact le_trans (le_of_lt hlt) (ih x)
+    · exact ih m
+
+theorem foldl_max_ge_mem (l : List K) (m : K) : ∀ x ∈ l, x ≤ l.foldl (fun m x => if m < x then x else m) m := by
+  induction l generalizing m with
+  | nil => intro x hx; simp at hx
+  | cons y t ih =>
+    intro x hx
+    simp only [List.foldl_cons]
+    rcases List.mem_cons.mp hx with rfl | hx
+    · split
+      · exact foldl_max_ge_init t x
+      · rename_i hlt; exact le_trans (not_lt.mp hlt) (foldl_max_ge_init t m)
+    · exact ih _ x hx
+
+/-- the convergence measure of `relax` below the tolerance means: every image moved by less than
+    `tolerance · timestep` (Euclidean length `sqrt (dot d d)` of its displacement). -/
+theorem displacement_lt_rows (h tol : K) (hh : 0 < h) (old new : List V)
+    (hd : Path.displacement dot sqrt h old new < tol) :
+    ∀ i (hi : i < old.length) (hj : i < new.length),
+      sqrt (dot (new[i] - old[i]) (new[i] - old[i])) < tol * h := by
+  intro i hi hj
+  simp only [Path.displacement, Nat.cast_zero] at hd
+  rw [div_lt_iff₀ hh] at hd
+  refine lt_of_le_of_lt ?_ hd
+  apply foldl_max_ge_mem
+  refine List.mem_iff_getElem.mpr ⟨i, by simp [hi, hj], ?_⟩
+  simp only [List.getElem_zipWith]
+
+/-- **what "converged" means** (Euler): when a plain step of the images `c` has a convergence measure below the
+    tolerance — the test on which each phase of `relax` stops — the gradient of the energy at every image of `c` is
+    shorter than the tolerance. -/
+theorem euler_converged_gradient_lt (p : Path V K) (hp : p.integratorfxn = fun r x h => euler r x h)
+    (hl : ∀ (k : K) a c, dot (k • a) c = k * dot a c) (hr : ∀ (k : K) a c, dot a (k • c) = k * dot a c)
+    (hscale : ∀ (k x : K), 0 < k → sqrt (k * k * x) = k * sqrt x)
+    (h tol : K) (hh : 0 < h) (c : List V)
+    (hd : Path.displacement dot sqrt h c (c.map (p.stepRow h)) < tol) :
+    ∀ x ∈ c, sqrt (dot (p.gradPoint x) (p.gradPoint x)) < tol := by
+  intro x hx
+  obtain ⟨i, hi, rfl⟩ := List.mem_iff_getElem.mp hx
+  have := displacement_lt_rows dot sqrt h tol hh c (c.map (p.stepRow h)) hd i hi (by simpa using hi)
+  simp only [List.getElem_map, Path.stepRow, hp, euler, rate, add_sub_cancel_left, smul_neg, ← neg_smul, hl, hr] at this
+  have e : -h * (-h * dot (p.gradPoint c[i]) (p.gradPoint c[i])) = h * h * dot (p.gradPoint c[i]) (p.gradPoint c[i]) := by ring
+  rw [e, hscale h _ hh, mul_comm] at this
+  exact lt_of_mul_lt_mul_right this (le_of_lt hh)
+
+
+/-- the same at a climbing image (Euler): a climbing move shorter than `tolerance · timestep` means a gradient
+    shorter than the tolerance, because the climbing rate has the length of the gradient. -/
+theorem euler_climb_converged_gradient_lt (p : Path V K) (hp : p.integratorfxn = fun r x h => euler r x h)
+    (hadd : ∀ a b c, dot (a + b) c = dot a c + dot b c) (hadd' : ∀ a b c, dot a (b + c) = dot a b + dot a c)
+    (hl : ∀ (k : K) a c, dot (k • a) c = k * dot a c) (hr : ∀ (k : K) a c, dot a (k • c) = k * dot a c)
+    (hneg : ∀ a c, dot (-a) c = - dot a c) (hneg' : ∀ a c, dot a (-c) = - dot a c)
+    (hsymm : ∀ a b, dot a b = dot b a)
+    (hscale : ∀ (k x : K), 0 < k → sqrt (k * k * x) = k * sqrt x)
+    (h tol : K) (hh : 0 < h) (x τ : V) (hτ : dot τ τ = 1)
+    (hd : sqrt (dot (p.climbRow dot h x τ - x) (p.climbRow dot h x τ - x)) < tol * h) :
+    sqrt (dot (p.gradPoint x) (p.gradPoint x)) < tol := by
+  have hn := climbrate_norm_sq dot hadd hadd' hl hr hneg hneg' hsymm p.gradPoint x τ hτ
+  simp only [Path.climbRow, hp, euler, add_sub_cancel_left, hl, hr, hn] at hd
+  have e : h * (h * dot (p.gradPoint x) (p.gradPoint x)) = h * h * dot (p.gradPoint x) (p.gradPoint x) := by ring
+  rw [e, hscale h _ hh, mul_comm] at hd
+  exact lt_of_mul_lt_mul_right hd (le_of_lt hh)
+
+end converged
+
+section phasestop
+variable {K V : Type} [Add V] [Sub V] [Neg V] [SMul K V] [Add K] [Sub K] [Mul K] [Div K] [Neg K] [NatCast K]
+  [LT K] [DecidableLT K]
+
+/-- a phase of `relax` that performed fewer steps than allowed stopped on its convergence test: the last step it
+    performed — from the images reached by the steps before — had a measure below the tolerance. -/
+theorem relaxPhase_stopped_early (p : Path V K) (dot : V → V → K) (sqrt : K → K) (h tol : K) (n : Nat) (c : List V)
+    (hlt : (p.relaxPhase dot sqrt h tol n c).2.length < n) :
+    ∃ k, k + 1 = (p.relaxPhase dot sqrt h tol n c).2.length ∧
+      Path.displacement dot sqrt h (p.iterateRows h k c) ((p.iterateRows h k c).map (p.stepRow h)) < tol := by
+  induction n generalizing c with
+  | zero => simp at hlt
+  | succ n ih =>
+    simp only [Path.relaxPhase] at hlt ⊢
+    split
+    · rename_i hd
+      exact ⟨0, by simp, by simpa [Path.iterateRows] using hd⟩
+    · rename_i hd
+      rw [if_neg hd] at hlt
+      simp only [List.length_cons] at hlt
+      obtain ⟨k, hk, hdk⟩ := ih (c.map (p.stepRow h)) (by omega)
+      exact ⟨k + 1, by simp only [List.length_cons]; omega, by simpa only [Path.iterateRows] using hdk⟩
+
+/-- … and every earlier step of the phase had a measure not below the tolerance (the phase did not stop late). -/
+theorem relaxPhase_measures_before_last (p : Path V K) (dot : V → V → K) (sqrt : K → K) (h tol : K) (n : Nat) (c : List V) :
+    ∀ d ∈ (p.relaxPhase dot sqrt h tol n c).2.dropLast, ¬ d < tol := by
+  induction n generalizing c with
+  | zero => simp [Path.relaxPhase]
+  | succ n ih =>
+    simp only [Path.relaxPhase]
+    split
+    · simp
+    · rename_i hd
+      intro d hmem
+      cases hrest : (p.relaxPhase dot sqrt h tol n (c.map (p.stepRow h))).2 with
+      | nil => simp [hrest] at hmem
+      | cons y t =>
+        simp only [hrest, List.dropLast_cons_cons, List.mem_cons] at hmem
+        rcases hmem with rfl | hmem
+        · exact hd
+        · exact ih (c.map (p.stepRow h)) d (by rw [hrest]; exact hmem)
+
+end phasestop
+
+section examples3
+/-! non-vacuity of the round-3 hypotheses -/
+-- a re-spacing that keeps the pinned rows exists (the identity; the spline keeps its knots)
+example (climb : List Nat) : ∀ (rows : List ℚ) (i : Nat), (i = 0 ∨ i + 1 = rows.length ∨ i ∈ climb) →
+    ((fun (_ : List Nat) (r : List ℚ) => r) climb rows)[i]? = rows[i]? := fun _ _ _ => rfl
+-- the convergence measure of a concrete step: images 0 -> 1 and 1 -> 1 with time step 1/2
+example : Path.displacement (fun a b : ℚ => a * b) (fun x : ℚ => x) (1/2) [0, 1] [1, 1] = 2 := by
+  norm_num [Path.displacement]
+-- a path at rest: both images critical, Euler; the whole step returns the string
+example : (exPath.apply (.setCoord [0, 0])).stepRow (1/4) 0 = 0 :=
+  (stepRow_euler_fixed_iff _ rfl (1/4) (by norm_num) 0).mpr (by simp [Path.gradPoint, Path.apply, exPath])
+example : ∀ (k x : ℝ), 0 < k → Real.sqrt (k * k * x) = k * Real.sqrt x := fun k x hk => by
+  rw [show k * k * x = k ^ 2 * x by ring, Real.sqrt_mul (sq_nonneg k), Real.sqrt_sq hk.le]
+end examples3
+
 end Atomman.C20
